@@ -188,11 +188,17 @@ def case_fs(idx, rng, tier, res):
                 with open(srcf, 'w') as f:
                     f.write('x = 1\n')
                 os.utime(srcf, (mt, mt))
+                pmode = rng.choice(['TIMESTAMP', 'TIMESTAMP', 'CHECKED_HASH', 'UNCHECKED_HASH'])
                 py_compile.compile(srcf, cfile=os.path.join(d, name + '.pyc'), doraise=True,
-                                   invalidation_mode=py_compile.PycInvalidationMode.TIMESTAMP)
+                                   invalidation_mode=getattr(py_compile.PycInvalidationMode, pmode))
                 os.remove(srcf)
                 os.utime(os.path.join(d, name + '.pyc'), (mt, mt))
-                listing[name + '.pyc'] = ('file', mt)
+                if pmode == 'TIMESTAMP':
+                    listing[name + '.pyc'] = ('file', mt)
+                else:
+                    # hash-based byte code (PEP 552) records no time: it says nothing about age, the
+                    # module file next to it decides
+                    res.count('hash_based_bytecode_files')
                 if rng.random() < 0.6:
                     mk(name + '.py', mt)
                 res.count('bytecode_files_next_to_modules')
